@@ -3,6 +3,7 @@ From Coq Require Import ZArith List Bool.
 From BV Require Import Lib.Cases Model.LaxSem Model.Restart Model.Pool
      Proofs.PoolJobs Proofs.PoolInv Proofs.PoolTick Proofs.PoolSup Proofs.PoolIdx.
 From BV Require Gen.G_pool_shape.
+From BV Require Lib.PyVal Gen.K_worker Model.Worker Proofs.WorkerProofs.
 Import ListNotations.
 Open Scope Z_scope.
 
@@ -50,6 +51,19 @@ Theorem C09_code_shape :
   G_pool_shape.terminate_job_flags_worker = true.
 Proof. repeat split; reflexivity. Qed.
 Print Assumptions C09_code_shape.
+
+(* with a per-child quota N every worker executes at most N jobs and then leaves with the
+   recycle status (worker model of C03, tied to Worker.workloop by translation and by the
+   worker correspondence that this check also runs); `completed` counts exactly the jobs
+   executed to the end, whatever their results -- including results that cannot be pickled *)
+Theorem C09_quota : forall c N ins,
+    Worker.maxtasks c = Some N -> 1 <= N ->
+    0 <= WorkerProofs.w_completed c ins <= N /\
+    (WorkerProofs.w_completed c ins = N -> WorkerProofs.w_exit c ins = Worker.XReturn Worker.EX_RECYCLE) /\
+    (forall code, WorkerProofs.w_exit c ins = Worker.XReturn code -> code = Worker.EX_RECYCLE) /\
+    (Worker.eff_maxmem c <= 0 -> WorkerProofs.w_exit c ins = Worker.XReturn Worker.EX_RECYCLE -> WorkerProofs.w_completed c ins = N).
+Proof. exact WorkerProofs.workloop_quota. Qed.
+Print Assumptions C09_quota.
 
 (* non-vacuity: pool of 3; two workers exit (recycle + crash), grow(1), shrink(1): after
    each pass the list has the configured size and the indices are distinct *)
